@@ -794,6 +794,8 @@ def main(tier):
     ck.rule('B4.true-residual', 'restarted methods (gmres, fgmres, lgmres, richardson): R is the norm of residual(rhs, A, x, .) recomputed after the last update of x (through P.apply for left preconditioning)', 4)
     ck.rule('B5.lock-step', 'cg, bicgstab, idrs: every x += c D is paired with a residual update -c V where V is the image of D under the (side-dependent) preconditioned operator', 3)
     ck.rule('B6.smoothing-siblings', 'idrs: the residual-smoothing block after the inner update and the one after the omega step are the same code', 1)
+    import c05
+    c05.register_x_rules(ck)
     seen = set()
     for name, f in solver_functions(units):
         seen.add(name)
@@ -803,6 +805,7 @@ def main(tier):
             rule_B(ck, name, f, k)
         if name in LOCKSTEP:
             rule_lockstep(ck, name, f)
+        c05.rule_xspace(ck, name, f)     # the returned x is x0 plus solution-space increments (shared with C05)
     missing = [s for s in SOLVERS if s not in seen]
     if missing:
         ck.brk('solver classes not instantiated: %s' % missing)
